@@ -261,7 +261,7 @@ type scenario struct {
 }
 
 var terminators = []string{"peer-close", "stream-error", "handler-error", "deadline", "transport-eof"}
-var forced = []string{"X1a", "X1b", "X2", "X3", "X4", "X5a", "X5b", "X5c", "X6", "X7", "X8", "X9", "X10", "X11", "X12", "X13", "X14", "X15", "X16"}
+var forced = []string{"X1a", "X1b", "X2", "X3", "X4", "X5a", "X5b", "X5c", "X6", "X7", "X8", "X9", "X10", "X11", "X12", "X13", "X14", "X15", "X16", "X17"}
 
 func run(c *core.Case) {
 	if c.Index < len(forced)*2 {
@@ -315,6 +315,16 @@ func newWorldOpt(c *core.Case, o sess.Opts, withLoop, holdServe bool) *world {
 					// any buffer between the session and the connection
 					n, _ := strconv.Atoi(a.Value)
 					return stream.Error{Err: "policy-violation", Text: []struct{ Lang, Value string }{{Lang: "en", Value: strings.Repeat("é", n)}}}
+				}
+			}
+			// half of the failing handlers have begun to write something by the time
+			// they fail (the start tag of a reply): the session then holds the output
+			// stream on the handler's behalf and must give it up before it sends its
+			// stream error and closes
+			for _, a := range start.Attr {
+				if a.Name.Local == "wrote" && a.Value == "1" {
+					c.Count("failing_handlers_that_had_begun_to_write", 1)
+					t.EncodeToken(xml.StartElement{Name: xml.Name{Local: "iq"}, Attr: []xml.Attr{{Name: xml.Name{Local: "type"}, Value: "result"}, {Name: xml.Name{Local: "id"}, Value: "half-written"}}})
 				}
 			}
 			// the error has one of several shapes; none of them is the peer closing
@@ -450,7 +460,7 @@ func (w *world) terminate(kind string) {
 			w.p.Send(fmt.Sprintf(`<fail xmlns='urn:verif:c10' n='%d'/>`, w.errText))
 		} else {
 			shapes := []string{"plain", "plain", "wrap-eof", "wrap-eof", "wrap-unexpected-eof", "wrap-closed-pipe", "wrap-output-closed", "wrap-input-closed", "wrap-canceled"}
-			w.p.Send(fmt.Sprintf(`<fail xmlns='urn:verif:c10' shape='%s'/>`, shapes[w.c.Index%len(shapes)]))
+			w.p.Send(fmt.Sprintf(`<fail xmlns='urn:verif:c10' shape='%s' wrote='%d'/>`, shapes[w.c.Index%len(shapes)], (w.c.Index/len(shapes))%2))
 		}
 	case "transport-eof":
 		// the connection ends without the peer having closed its stream: the
@@ -1469,6 +1479,40 @@ func runForced(c *core.Case, id string, s2s bool) {
 		w.p.Send("<message id='x9-after'><body>still served</body></message>")
 		smp.Closers = 1
 		c.Count("close_vs_default_reply_scenarios", 1)
+	case "X17":
+		// A transmit fails because the transport refuses one write (a transient
+		// condition; the transport is healthy afterwards).  Whatever that does to
+		// later transmits, closing still works: two Close calls, one closing tag,
+		// both without error, and the output is marked closed.
+		_, nw, _ := w.p.Lib.Ops()
+		fp := bufconn.NoFault()
+		fp.FailWrite = nw + 1
+		w.p.Lib.SetFault(fp)
+		e := w.h.begin("sender", "transmit:Send", "x17")
+		err := entries[0].do(context.Background(), w.p.S, "x17")
+		out, d := classifyErr(err)
+		w.h.end(e, out, d)
+		if err == nil {
+			c.Notef("X17: the transmit whose write was failed returned nil")
+		}
+		for _, who := range []string{"closer1", "closer2"} {
+			who := who
+			done := make(chan struct{})
+			var cerr error
+			go func() {
+				defer close(done)
+				e := w.h.begin(who, "close", "")
+				c.Guard("Close", func() { cerr = w.p.S.Close() })
+				w.closed()
+				w.h.end(e, fmt.Sprint(cerr), "")
+			}()
+			<-done
+			if cerr != nil {
+				c.Violate("close:error-on-healthy-transport", "X17: after a transmit had failed on one refused write, Close (%s) returned %v although the transport accepts writes again", who, cerr)
+			}
+		}
+		smp.Closers, smp.Senders = 2, 1
+		c.Count("close_after_a_transient_write_fault_scenarios", 1)
 	case "X16":
 		// The application holds a token writer in mid-element; Encode,
 		// EncodeElement, Send and SendElement calls queue behind it with contexts
@@ -1670,7 +1714,7 @@ func Prop() *core.Prop {
 		Run: run,
 		Require: []string{"forced_scenarios", "stress_histories", "closed_then_large_stream_error_scenarios", "close_deadline_then_cancelled_transmit_scenarios", "cancelled_transmits_after_setclosedeadline", "sessions_whose_xml_console_fails_at_close_time", "readers_after_serve_returned", "second_serve_returned", "terminators_with_a_stream_error_larger_than_the_output_buffer", "close_under_write_fault", "close_returns_with_wire_snapshot", "synchronous_transport_closes", "cancelled_sender_deadline_scenarios", "close_deadline_during_loop_scenarios", "close_vs_default_reply_scenarios", "close_deadline_extended_scenarios", "transmits_queued_behind_blocked_close_scenarios", "unanswered_iqs_injected", "x9_close_queued_behind_writer", "x9_default_reply_queued_behind_writer", "layered_transport_histories", "layered_transport_close_deadline", "yield:close.enter", "yield:senderr.enter", "transmits_overlapping_a_close",
 			"transmits_begun_after_a_close_returned", "late_transmits", "porcupine_checks",
-			"close_while_shutdown_waits_for_input_scenarios", "transmits_whose_context_ends_while_queued_behind_a_token_writer_scenarios", "stream_errors_not_followed_by_the_closing_tag", "close_deadlines_already_passed_when_set", "close_deadlines_already_passed_when_set_with_serve_blocked_in_a_read", "handler_errors_of_shape_wrap-eof", "serve_returned:peer-close", "serve_returned:stream-error", "serve_returned:handler-error", "serve_returned:deadline", "serve_returned:transport-eof"},
+			"close_while_shutdown_waits_for_input_scenarios", "close_after_a_transient_write_fault_scenarios", "transmits_whose_context_ends_while_queued_behind_a_token_writer_scenarios", "stream_errors_not_followed_by_the_closing_tag", "close_deadlines_already_passed_when_set", "close_deadlines_already_passed_when_set_with_serve_blocked_in_a_read", "handler_errors_of_shape_wrap-eof", "serve_returned:peer-close", "serve_returned:stream-error", "serve_returned:handler-error", "serve_returned:deadline", "serve_returned:transport-eof"},
 		ReplayRepeats: 10,
 		CaseTimeout:   150 * time.Second,
 	}
